@@ -145,6 +145,8 @@ def _diagonalising_frame(A):
     return None, None
 
 
+NAME_DET = 12  # determinants with more terms than this are named (abstraction by naming); 0 disables
+
 STATS = {"eigh": 0, "svd": 0, "out_of_family": 0}
 
 
@@ -258,6 +260,8 @@ def inv(A):
     A = sym(A)
     n = A.shape[0]
     d = det(A)
+    if NAME_DET and isinstance(d, SReal) and (len(d.f.numer) + len(d.f.denom)) > NAME_DET:
+        d = ctx().name(d, "det")  # keeps the entries of the inverse small (no gcd against a big determinant)
     if n == 1:
         out = arrays.zeros((1, 1))
         out[0, 0] = 1 / d
